@@ -127,6 +127,17 @@ class Ctx:
             return
         self.failing.append(dict(signature=signature, description=description, replay=replay))
         self.log('FAILING INPUT', signature, description[:300])
+        # written at once: if the implementation later takes the whole process down (heap corruption after a stale
+        # buffer, abort in native code), the parent still reports the failing inputs found before the crash
+        try:
+            os.makedirs(os.path.join(VERIF, 'replays'), exist_ok=True)
+            i = len(self.failing) - 1
+            path = os.path.join(VERIF, 'replays', '%s_%s_%d_%d.json' % (self.prop, self.tier, self.seed, i))
+            json.dump(dict(property=self.prop, seed=self.seed, tier=self.tier, kind='failing-input', signature=signature,
+                           description=description, replay=replay, broken=[], written='at-detection'),
+                      open(path, 'w'), indent=1, default=str)
+        except Exception:  # noqa
+            pass
 
     # ---- finish ------------------------------------------------------------------------------------
     def finish(self):
